@@ -277,7 +277,7 @@ def initialize_port_claim_snippet(port: CppPortItf, multiclient: MultiClientPort
     args = []
     for i in event.signature.formals.elements:
         res = find_fqn(fct, i.type_name.value, dzn.interface.fqn)
-        ext_type = res.get_single_instance()
+        ext_type = res.get_single_instance(ast.Extern)
         opt_ref = '&' if i.direction != ast.FormalDirection.IN else ''
         args.append(f'{ext_type.value.value}{opt_ref} {i.name}')
 
@@ -309,7 +309,7 @@ def initialize_port_release_snippet(port: CppPortItf, multiclient: MultiClientPo
     args = []
     for i in event.signature.formals.elements:
         res = find_fqn(fct, i.type_name.value, dzn.interface.fqn)
-        ext_type = res.get_single_instance()
+        ext_type = res.get_single_instance(ast.Extern)
         opt_ref = '&' if i.direction != ast.FormalDirection.IN else ''
         args.append(f'{ext_type.value.value}{opt_ref} {i.name}')
 
@@ -343,7 +343,7 @@ def reroute_in_events(port: CppPortItf, facilities: Facilities, encapsulee: CppE
         args = []
         for i in event.signature.formals.elements:
             res = find_fqn(fct, i.type_name.value, port.dzn_port_itf.interface.fqn)
-            ext_type = res.get_single_instance()
+            ext_type = res.get_single_instance(ast.Extern)
             opt_ref = '&' if i.direction != ast.FormalDirection.IN else ''
             args.append(f'{ext_type.value.value}{opt_ref} {i.name}')
 
@@ -384,7 +384,7 @@ def reroute_out_events(port: CppPortItf, facilities: Facilities, encapsulee: Cpp
         args = []
         for i in event.signature.formals.elements:
             res = find_fqn(fct, i.type_name.value, port.dzn_port_itf.interface.fqn)
-            ext_type = res.get_single_instance()
+            ext_type = res.get_single_instance(ast.Extern)
             args.append(f'{ext_type.value.value} {i.name}')
 
         captures_by_value = ''.join(f', {x.name}' for x in in_formals)
@@ -455,7 +455,7 @@ def reroute_multiclient_out_events(port: CppPortItf, fct: ast.FileContents) -> O
         args = []
         for i in event.signature.formals.elements:
             res = find_fqn(fct, i.type_name.value, port.dzn_port_itf.interface.fqn)
-            ext_type = res.get_single_instance()
+            ext_type = res.get_single_instance(ast.Extern)
             args.append(f'{ext_type.value.value} {i.name}')
 
         stdfunction_arguments = '(' + ', '.join(args) + ')' if args else ''
